@@ -305,6 +305,7 @@ def statistics_iadd_ends(c):
     c.body_until = "return self"
     c.types(self=EndsT, other=EndsT)
     c.modifies = ["self"]
+    c.runtime = {"module": "cstats", "name": "iadd"}
     c.spec(ends_spec)
     c.raises("ValueError", when=None)
     c.requires(counts_not_negative="True")
